@@ -392,6 +392,25 @@ package ociauth
 //@   wf(s1) && wf(s2) && !s1.unlimited && !s2.unlimited &&
 //@   reposCovered(s1, s2, len(s2.repositories)) && othersCovered(s1, s2, len(s2.others)) && holds(s2, r) ==> holds(s1, r)
 
+// String, for a scope without preserved text: each element the iteration
+// offers is appended to the text built so far either as a new entry
+// (type[:name:action], separated by a space) or, in the grammar's short form
+// "type:name:action,action", as a further action of the entry before it. The
+// short form is only sound for an element of the same type and name as the
+// one before it (that is what a parser makes of it); the code uses it for
+// repository entries of one repository.
+//@ func (Scope).String$1
+//@   ensures[always-continues] result
+//@   ensures[remembers-the-element] prev == s
+// (a type that itself starts with a comma is outside the scope grammar and is excluded)
+//@   ensures[comma-join-only-continues-an-entry-of-the-same-type-and-name] !hasPrefix(s.ResourceType, ",") && built(buf) == old(built(buf)) + "," + s.Action ==>
+//@     old(prev.ResourceType) == s.ResourceType && old(prev.Resource) == s.Resource
+//@   ensures[a-further-action-of-the-same-repository-is-joined] s.ResourceType == TypeRepository && old(prev.ResourceType) == TypeRepository && s.Resource == old(prev.Resource) ==>
+//@     built(buf) == old(built(buf)) + "," + s.Action
+//@   ensures[anything-else-starts-a-new-entry] !(s.ResourceType == TypeRepository && old(prev.ResourceType) == TypeRepository && s.Resource == old(prev.Resource)) ==>
+//@     built(buf) == old(built(buf)) + (old(built(buf)) != "" ? " " : "") + s.ResourceType +
+//@       ((s.Resource != "" || s.Action != "") ? ":" + s.Resource + ":" + s.Action : "")
+
 // Union: the part of its contract that discharges within the quick budget
 // (the full representation-level contract that was attempted is kept, not
 // claimed, in /verif/attempted/ociauth_Union.txt).
